@@ -31,6 +31,7 @@ package queue
 // drop rule does not apply, everything else does).
 
 import (
+	"regexp"
 	"bytes"
 	"context"
 	"crypto/tls"
@@ -120,6 +121,7 @@ type c10Case struct {
 	bodySeed uint64
 	strs    []string
 	from    int
+	ofrom   int // MsgMetadata.OriginalFrom (string index); = from unless the op line says from=<n>/<m>
 	to      []int
 	orc     [][2]int
 	orcNil  bool
@@ -429,7 +431,20 @@ func c10ParseCase(op string) (*c10Case, error) {
 	if s, err = kv(7, "from"); err != nil {
 		return nil, err
 	}
+	// from=<sender> or from=<sender>/<original sender>: MsgMetadata.OriginalFrom (what the source saw in
+	// MAIL FROM) is a dimension of its own - a sender rewritten before the queue (sender modifier, list /
+	// VERP-style rewriting of a message that arrived with the null reverse-path, a source that never set it)
+	c.ofrom = -1
+	if k := strings.IndexByte(s, '/'); k >= 0 {
+		if c.ofrom, err = strconv.Atoi(s[k+1:]); err != nil {
+			return nil, fmt.Errorf("bad original sender %q", s)
+		}
+		s = s[:k]
+	}
 	c.from, _ = strconv.Atoi(s)
+	if c.ofrom < 0 {
+		c.ofrom = c.from
+	}
 	if s, err = kv(8, "to"); err != nil {
 		return nil, err
 	}
@@ -488,7 +503,7 @@ func c10ParseCase(op string) (*c10Case, error) {
 	if c.pre, err = c10ParsePre(s); err != nil {
 		return nil, err
 	}
-	for _, i := range append(append([]int{c.from}, c.to...), c.peerTo...) {
+	for _, i := range append(append([]int{c.from, c.ofrom}, c.to...), c.peerTo...) {
 		if i < 0 || i >= len(c.strs) {
 			return nil, fmt.Errorf("string index %d out of range", i)
 		}
@@ -510,6 +525,7 @@ func c10ParseCase(op string) (*c10Case, error) {
 
 type c10Seen struct {
 	from                  string
+	ofrom                 string // MsgMetadata.OriginalFrom the target was handed
 	to                    []string
 	utf8, rtls, tro, conn bool
 	orc                   map[string]string
@@ -588,7 +604,7 @@ func (t *c10Target) Start(ctx context.Context, msgMeta *module.MsgMetadata, mail
 	} else {
 		t.q.initialRetryTime = 0
 	}
-	s := &c10Seen{from: mailFrom, utf8: msgMeta.SMTPOpts.UTF8, rtls: msgMeta.SMTPOpts.RequireTLS, tro: msgMeta.TLSRequireOverride,
+	s := &c10Seen{from: mailFrom, ofrom: msgMeta.OriginalFrom, utf8: msgMeta.SMTPOpts.UTF8, rtls: msgMeta.SMTPOpts.RequireTLS, tro: msgMeta.TLSRequireOverride,
 		conn: msgMeta.Conn != nil, idOK: strings.HasPrefix(msgMeta.ID, t.id+"-")}
 	if msgMeta.OriginalRcpts != nil {
 		s.orc = map[string]string{}
@@ -902,6 +918,7 @@ func (o c10LogOut) Close() error { return nil }
 type c10Accepted struct {
 	id               string
 	from             string
+	ofrom            string // MsgMetadata.OriginalFrom as of Commit (need not be the sender the queue was given)
 	to               []string
 	utf8, rtls, tro  bool
 	orc              map[string]string
@@ -1416,7 +1433,10 @@ func (w *c10World) monitor(out *vh.Out, op string, acc *c10Accepted, strictEnv b
 			continue
 		}
 		if s.from != acc.from {
-			viol("C10/sender-changed", fmt.Sprintf("%ssender %q, accepted %q", at, s.from, acc.from))
+			viol("C10/sender-changed", fmt.Sprintf("%ssender %q, accepted %q (original sender of the message %q)", at, s.from, acc.from, acc.ofrom))
+		}
+		if s.ofrom != acc.ofrom {
+			viol("C10/original-sender-changed", fmt.Sprintf("%soriginal sender %q, accepted %q (sender %q)", at, s.ofrom, acc.ofrom, acc.from))
 		}
 		switch s.panicked {
 		case 's', 'r':
@@ -1595,6 +1615,9 @@ func (w *c10World) monitorPending(out *vh.Out, op string, acc *c10Accepted, stri
 		}
 		if m.From != acc.from {
 			viol("C10/sender-changed", fmt.Sprintf("at rest %s: the spool has sender %q, accepted %q", after, m.From, acc.from))
+		}
+		if m.MsgMeta == nil || m.MsgMeta.OriginalFrom != acc.ofrom {
+			viol("C10/original-sender-changed", fmt.Sprintf("at rest %s: the spool's original sender is not the accepted one %q (sender %q)", after, acc.ofrom, acc.from))
 		}
 	}
 	if blob, err := os.ReadFile(filepath.Join(w.spool, acc.id+".meta")); err == nil {
@@ -1781,6 +1804,13 @@ func (w *c10World) stats(out *vh.Out, pfx string, steps []c10Step, acc *c10Accep
 	if acc.from == "" {
 		out.Stat(pfx + ".null-sender")
 	}
+	if acc.ofrom != acc.from {
+		if acc.ofrom == "" {
+			out.Stat(pfx + ".sender-rewritten.from-null")
+		} else {
+			out.Stat(pfx + ".sender-rewritten.from-address")
+		}
+	}
 	out.Stat(pfx + ".flags." + c10Bit(acc.utf8) + c10Bit(acc.rtls) + c10Bit(acc.tro))
 	for _, s := range seen {
 		if s.gotBody {
@@ -1956,7 +1986,7 @@ func c10Run(out *vh.Out, op string) {
 	defer w.cleanup()
 	w.dsnMode = c.dsn
 	str := func(i int) string { return c.strs[i] }
-	acc := &c10Accepted{id: id, from: str(c.from), utf8: c.utf8, rtls: c.rtls, tro: c.tro, body: body, envUTF8: true}
+	acc := &c10Accepted{id: id, from: str(c.from), ofrom: str(c.ofrom), utf8: c.utf8, rtls: c.rtls, tro: c.tro, body: body, envUTF8: true}
 	for _, i := range c.to {
 		acc.to = append(acc.to, str(i))
 	}
@@ -2026,7 +2056,7 @@ func c10Run(out *vh.Out, op string) {
 	if c.auth == 2 {
 		opts.Auth = &authParam
 	}
-	msgMeta := &module.MsgMetadata{ID: id, OriginalFrom: str(c.from), DontTraceSender: c.dts, Quarantine: c.quar,
+	msgMeta := &module.MsgMetadata{ID: id, OriginalFrom: str(c.ofrom), DontTraceSender: c.dts, Quarantine: c.quar,
 		OriginalRcpts: orc, SMTPOpts: opts, Conn: conn}
 	if !c.late {
 		msgMeta.TLSRequireOverride = c.tro
@@ -3081,6 +3111,33 @@ func c10DecorateRun(r *vh.Rng, op string, hdrPct, prePct int) string {
 	return strings.Join(t, " ") + " pre=" + pre
 }
 
+var c10PlainAddr = regexp.MustCompile(`^[a-z0-9.+-]+@[a-z0-9.-]+$`)
+
+// c10DecorateFrom: pct % of the messages with a non-null sender carry an ORIGINAL sender
+// (MsgMetadata.OriginalFrom) that is not the sender the queue is given: the null reverse-path (two thirds:
+// the message arrived with <> / the source never set the field, and the sender was rewritten on the way) or
+// another plain address of the case's string table.
+func c10DecorateFrom(r *vh.Rng, op string, pct int) string {
+	t := strings.Fields(op)
+	if !r.Chance(pct) || len(t) < 9 || !strings.HasPrefix(t[5], "S=") || !strings.HasPrefix(t[7], "from=") || t[7] == "from=0" || strings.Contains(t[7], "/") {
+		return op
+	}
+	of := 0
+	if r.Chance(35) {
+		var cand []int
+		for i, h := range strings.Split(t[5][2:], ",") {
+			if a := string(vh.UnhexBytes(h)); i > 0 && strconv.Itoa(i) != t[7][5:] && c10PlainAddr.MatchString(a) {
+				cand = append(cand, i)
+			}
+		}
+		if len(cand) > 0 {
+			of = cand[r.Intn(len(cand))]
+		}
+	}
+	t[7] += "/" + strconv.Itoa(of)
+	return strings.Join(t, " ")
+}
+
 func c10NRcpt(t []string) int {
 	for _, tok := range t {
 		if strings.HasPrefix(tok, "to=") {
@@ -3267,11 +3324,13 @@ func TestVerifC10Run(t *testing.T) {
 	}
 	rd := vh.NewRng(vh.Seed() + 2014)
 	rp := vh.NewRng(vh.Seed() + 2015)
+	ro := vh.NewRng(vh.Seed() + 2018)
 	for i := 0; i < n; i++ {
 		op := c10GenRun(r, i < nbig, -1)
 		if i >= nbig {
 			op = c10DecorateOp(rd, op, 10, 25)
 			op = c10DecorateRun(rp, op, 30, 20)
+			op = c10DecorateFrom(ro, op, 25)
 		}
 		jobs <- op
 	}
@@ -3359,6 +3418,16 @@ func TestVerifC10Run(t *testing.T) {
 	jobs <- c10OpLine(fstrs(), "aAtt.r", bhdr, small, 1, []int{2, 3}, "-", "00000", 0, "0", 1, "-") + " pre=+5,x,100000"
 	jobs <- c10OpLine(fstrs(), "aPtt.aPto.r.aPoo", bhdr, small, 1, []int{2, 3}, "-", "00000", 0, "0", 1, "4/aPt.aPo") + " pre=+0,+0,3000"
 	jobs <- c10OpLine(fstrs(), "R.aPoo", bhdr, small, 1, []int{2, 3}, "-", "00000", 0, "0", 1, "-") + " pre=-3,-3,0"
+	// ... a sender that is not the original one: the message arrived with the null reverse-path (or the source
+	// never set OriginalFrom) resp. with another address and was rewritten before the queue - first attempt,
+	// in-process retry, after a restart, restarted before the first attempt, with a second queue
+	for _, of := range []string{"0", "4"} {
+		rw := func(op string) string { return strings.Replace(op, " from=1 ", " from=1/"+of+" ", 1) }
+		jobs <- rw(c10OpLine(fstrs(), "aPoo", bhdr, small, 1, []int{2, 3}, "-", "00000", 0, "0", 1, "-"))
+		jobs <- rw(c10OpLine(fstrs(), "aPtt.aPto.r.aPoo", bhdr, small, 1, []int{2, 3}, "-", "00000", 2, "0", 1, "-"))
+		jobs <- rw(c10OpLine(fstrs(), "R.aAtt.r.aPpo", bhdr, small, 1, []int{2, 3}, "2:6", "10000", 1, "1", 1, "4/aPt.r.aPo"))
+		jobs <- rw(c10OpLine(fstrs(), "aPpt.aPot.r", bhdr, small, 1, []int{2, 3}, "-", "00000", 0, "0", 2, "-"))
+	}
 	close(jobs)
 	wg.Wait()
 	_ = errors.New
